@@ -746,6 +746,37 @@ def main():
                     finally:
                         logging.disable(logging.NOTSET)
                     res["o"] = "skip"
+                elif kind == "nullmem":
+                    # the wrapper of Memory(None) (NotMemorizedFunc / AsyncNotMemorizedFunc) and Memory(None).eval:
+                    # every route accepts what the plain function accepts and returns the plain function's value
+                    k, cs = ev[1], ev[2]
+                    pos = [dec(v) for v in cs["pos"]]
+                    kw = {n: dec(v) for n, v in cs["kw"]}
+                    try:
+                        expect = canon(run_maybe_async(k, plains[k](*pos, **kw)))
+                        res["bind"] = "accepted"
+                    except TypeError:
+                        expect = None
+                        res["bind"] = None
+                    nm = Memory(None, verbose=0)
+                    nw = nm.cache(objs[k])
+                    routes = {}
+                    for route, fn in (("__call__", lambda: run_maybe_async(k, nw(*pos, **kw))),
+                                      ("call", lambda: (lambda o: run_maybe_async(k, o[0]) if isinstance(o, tuple)
+                                                        else run_maybe_async(k, o)[0])(nw.call(*pos, **kw))),
+                                      ("call_and_shelve", lambda: run_maybe_async(k, nw.call_and_shelve(*pos, **kw)).get()),
+                                      ("check_call_in_cache", lambda: nw.check_call_in_cache(*pos, **kw)),
+                                      ("eval", lambda: run_maybe_async(k, nm.eval(objs[k], *pos, **kw)))):
+                        try:
+                            out = fn()
+                            if route == "check_call_in_cache":
+                                routes[route] = "ok" if out is False else "answer %r" % (out,)
+                            else:
+                                routes[route] = "ok" if canon(out) == expect else "value %s" % canon(out)
+                        except Exception as e:  # noqa
+                            routes[route] = "raise %s" % type(e).__name__
+                    res["routes"] = routes
+                    res["o"] = "skip"
                 elif kind == "recache":
                     # RE-DECORATION of an already cached function, with other options or with none:
                     # memory.cache(cached_g, ignore=...) / memory.cache(cached_g)
